@@ -41,6 +41,9 @@ def dataset_cfg(rng, tier, prop):
            "align_join": rng.choice(["outer", "outer", "outer", "inner"])}
     if rng.random() < 0.06:
         cfg["max_len"], cfg["max_rank"], cfg["big"] = rng.choice([rng.randint(6, 24)] * 4 + [rng.randint(101, 130)]), min(cfg["max_rank"], 2), True
+    if rng.random() < 0.1:
+        k, v = rng.choice([["op.reindex", False], ["op.broadcast", False], ["indexing.broadcast", False], ["display.max", 2]])
+        cfg["options"] = {k: v}
     if rng.random() < 0.08:
         cfg["dim_names"] = ODD_DIMS[:ndims]
         cfg["odd_names"] = True
@@ -181,6 +184,8 @@ class DatasetWorld(object):
         install_init_monitor()
         for k, v in (("indexing.by", "label"), ("indexing.broadcast", True), ("op.broadcast", True),
                      ("op.reindex", True), ("align.join", cfg.get("align_join", "outer"))):
+            dimarray.rcParams[k] = v
+        for k, v in sorted(cfg.get("options", {}).items()):
             dimarray.rcParams[k] = v
         self.cfg = cfg
         self.new_names = list(ODD_NEW if cfg.get("odd_names") else NEW_NAMES)
